@@ -41,40 +41,41 @@ type Obligation struct {
 }
 
 type Exec struct {
-	P           *Program
-	Fn          *FuncInfo
-	Obls        []*Obligation
-	pre         *State
-	paramEnv    map[string]Val
-	boxed       map[*types.Var]bool
-	globalsSeen map[string]bool
-	globalFacts []*Term
-	notes       map[string]bool
-	floatModel  string
-	mutCount    int
-	inlineStack []*FuncInfo
-	loopOrd     map[ast.Stmt]int
-	retOrd      map[*ast.ReturnStmt]int
-	ghosts      map[string]*GhostInst
-	fnAxioms    []*Term
-	oblCount    map[string]int
-	curFn       *FuncInfo
-	callSeq     int
-	lastGhost   map[string]map[string]*GhostInst // callee key -> ghost-out name -> instance (latest call)
-	safetyOnly  bool
-	textFun     string
-	curProps    []string
-	assumedExt  map[string]bool
-	retStates   []retOut
-	modMemo     map[*FuncInfo]*ModSet
-	prepared    map[*FuncInfo]bool
-	marks       map[string]*State
-	kernelsUsed map[string]bool
-	noHoudini   bool
-	probeDepth  int
-	autoInvs    []string
-	houdiniSeq  int
-	sentinels   []string
+	P             *Program
+	Fn            *FuncInfo
+	Obls          []*Obligation
+	pre           *State
+	paramEnv      map[string]Val
+	boxed         map[*types.Var]bool
+	globalsSeen   map[string]bool
+	globalFacts   []*Term
+	notes         map[string]bool
+	floatModel    string
+	mutCount      int
+	inlineStack   []*FuncInfo
+	loopOrd       map[ast.Stmt]int
+	retOrd        map[*ast.ReturnStmt]int
+	ghosts        map[string]*GhostInst
+	fnAxioms      []*Term
+	oblCount      map[string]int
+	curFn         *FuncInfo
+	callSeq       int
+	lastGhost     map[string]map[string]*GhostInst // callee key -> ghost-out name -> instance (latest call)
+	safetyOnly    bool
+	textFun       string
+	curProps      []string
+	assumedExt    map[string]bool
+	retStates     []retOut
+	modMemo       map[*FuncInfo]*ModSet
+	prepared      map[*FuncInfo]bool
+	marks         map[string]*State
+	kernelsUsed   map[string]bool
+	houdiniFailed map[failKey]bool
+	noHoudini     bool
+	probeDepth    int
+	autoInvs      []string
+	houdiniSeq    int
+	sentinels     []string
 }
 
 type retOut struct {
@@ -605,9 +606,9 @@ func (ex *Exec) branch(st *State, c *Term, thenF, elseF func(*State) Outcomes) O
 		return elseF(st)
 	}
 	ts := st.clone()
-	ts.assume(c)
+	ts.assumeBranch(c)
 	es := st
-	es.assume(Not(c))
+	es.assumeBranch(Not(c))
 	to := thenF(ts)
 	eo := elseF(es)
 	out := Outcomes{brk: append(to.brk, eo.brk...), cont: append(to.cont, eo.cont...)}
@@ -634,7 +635,7 @@ func mergeMany(sts []*State, nbase int) *State {
 				break
 			}
 		}
-		c := And(s.facts[n:]...)
+		c := s.disc(n)
 		m = mergeStates(c, s, m, n)
 	}
 	return m
@@ -674,8 +675,8 @@ func (ex *Exec) execSwitch(st *State, s *ast.SwitchStmt) Outcomes {
 		}
 		c := Or(conds...)
 		ts := cur.clone()
-		ts.assume(c)
-		cur.assume(Not(c))
+		ts.assumeBranch(c)
+		cur.assumeBranch(Not(c))
 		for _, b := range cl.Body {
 			if br, ok := b.(*ast.BranchStmt); ok && br.Tok == token.FALLTHROUGH {
 				ex.unsupported(br, "fallthrough")
@@ -744,8 +745,8 @@ func (ex *Exec) execTypeSwitch(st *State, s *ast.TypeSwitchStmt) Outcomes {
 		}
 		c := Or(conds...)
 		ts := cur.clone()
-		ts.assume(c)
-		cur.assume(Not(c))
+		ts.assumeBranch(c)
+		cur.assumeBranch(Not(c))
 		if o, ok := ex.P.Info.Implicits[cl].(*types.Var); ok {
 			if len(cl.List) == 1 && single != nil {
 				ex.declVar(ts, o, ex.fromIface(ts, x, single))
@@ -883,6 +884,7 @@ func (ex *Exec) runLoop(st *State, ls loopShape) Outcomes {
 			entrySnap[h] = st.heapGet(h, ls.mod.heaps[h])
 		}
 	}
+	entrySt := st.clone()
 	ex.havocFor(st, ls.mod, fmt.Sprintf("L%d", ord))
 	for _, v := range ls.extraV {
 		if _, ok := st.vars[v]; ok && !ex.boxed[v] {
@@ -915,7 +917,7 @@ func (ex *Exec) runLoop(st *State, ls loopShape) Outcomes {
 	}
 	// automatic frame invariants (Houdini: kept only when proved inductive)
 	if entrySnap != nil {
-		ex.houdiniFrames(st, entrySnap, entryCtr, ls, spec, ghosts, pos, ord)
+		ex.houdiniFrames(st, entrySnap, entryCtr, ls, spec, ghosts, pos, ord, entrySt)
 	}
 	var dec0 *Term
 	if spec != nil && spec.Decreases != nil {
@@ -957,10 +959,10 @@ func (ex *Exec) loopIter(st *State, ls loopShape, ghosts []*GhostVar, pos token.
 	}
 	if cond != True {
 		exitSt = st.clone()
-		exitSt.assume(Not(cond))
+		exitSt.assumeBranch(Not(cond))
 	}
 	bodySt := st
-	bodySt.assume(cond)
+	bodySt.assumeBranch(cond)
 	var outs Outcomes
 	if cond != False {
 		outs = ls.body(bodySt)
@@ -1033,6 +1035,11 @@ func (ex *Exec) restore(s *execSnap) {
 	ex.autoInvs = ex.autoInvs[:s.nAuto]
 }
 
+type failKey struct {
+	stmt ast.Stmt
+	name string
+}
+
 type autoCand struct {
 	name string
 	at   func(st *State) *Term
@@ -1041,7 +1048,7 @@ type autoCand struct {
 // houdiniFrames: for every heap array havocked wholesale by the loop, the
 // candidate "locations allocated before the loop keep their entry value" is
 // tried; the candidates that are jointly inductive are assumed at the head.
-func (ex *Exec) houdiniFrames(st *State, entry map[string]*Term, entryCtr *Term, ls loopShape, spec *LoopSpec, ghosts []*GhostVar, pos token.Pos, ord int) {
+func (ex *Exec) houdiniFrames(st *State, entry map[string]*Term, entryCtr *Term, ls loopShape, spec *LoopSpec, ghosts []*GhostVar, pos token.Pos, ord int, entrySt *State) {
 	if ex.noHoudini || ex.probeDepth > 1 {
 		return
 	}
@@ -1076,10 +1083,19 @@ func (ex *Exec) houdiniFrames(st *State, entry map[string]*Term, entryCtr *Term,
 			}})
 		}
 	}
+	cands = append(cands, ex.varCandidates(st, entrySt, ls)...)
 	if len(cands) == 0 {
 		return
 	}
-	active := cands
+	if ex.houdiniFailed == nil {
+		ex.houdiniFailed = map[failKey]bool{}
+	}
+	var active []autoCand
+	for _, c := range cands {
+		if !ex.houdiniFailed[failKey{ls.stmt, c.name}] {
+			active = append(active, c)
+		}
+	}
 	for round := 0; round < 6 && len(active) > 0; round++ {
 		snap := ex.snapshot()
 		probe := st.clone()
@@ -1120,6 +1136,8 @@ func (ex *Exec) houdiniFrames(st *State, entry map[string]*Term, entryCtr *Term,
 		for gi, g := range goals {
 			if g.Status != "proved" {
 				failed[owner[gi]] = true
+				// failures are monotone (later analyses of this loop assume no more than this one)
+				ex.houdiniFailed[failKey{ls.stmt, active[owner[gi]].name}] = true
 			}
 		}
 		if len(failed) == 0 {
@@ -1132,6 +1150,13 @@ func (ex *Exec) houdiniFrames(st *State, entry map[string]*Term, entryCtr *Term,
 			}
 		}
 		active = next
+	}
+	if os.Getenv("GOVC_HOUDINI") != "" {
+		var kept []string
+		for _, c := range active {
+			kept = append(kept, c.name)
+		}
+		fmt.Fprintf(os.Stderr, "houdini %s loop%d depth=%d: %d candidates, kept %v\n", ex.Fn.Key, ord, ex.probeDepth, len(cands), kept)
 	}
 	for _, c := range active {
 		st.assume(c.at(st))
@@ -1153,9 +1178,9 @@ func (ex *Exec) quickSolve(goals []*Obligation) {
 	ex.houdiniSeq++
 	to := 4
 	if sweepMode {
-		to = 1
+		to = 3
 	}
-	d := &Discharger{TimeoutS: to, Seed: 1, Par: runtime.NumCPU()}
+	d := &Discharger{TimeoutS: to, Seed: 1, Par: runtime.NumCPU(), Quick: true}
 	var wg sync.WaitGroup
 	sem := make(chan struct{}, d.Par)
 	for _, g := range goals {
@@ -1166,7 +1191,9 @@ func (ex *Exec) quickSolve(goals []*Obligation) {
 			defer wg.Done()
 			defer func() { <-sem }()
 			d.solveFile(g, g.File)
-			os.Remove(g.File)
+			if os.Getenv("GOVC_HOUDINI") == "" {
+				os.Remove(g.File)
+			}
 		}()
 	}
 	wg.Wait()
@@ -1675,4 +1702,184 @@ func mergeClosest(sts []*State, max int) []*State {
 		sts = append(next, m)
 	}
 	return sts
+}
+
+// varCandidates: candidate invariants about local variables modified by the loop:
+// pointers that stay non-nil, counters that only grow / shrink, accumulators whose length only
+// grows, index variables that stay within the slices they index. Candidates whose entry
+// condition is not immediate are checked on the entry state first.
+func (ex *Exec) varCandidates(st, entrySt *State, ls loopShape) []autoCand {
+	if ls.mod == nil || entrySt == nil {
+		return nil
+	}
+	var out []autoCand
+	var needEntry []autoCand
+	var vs []*types.Var
+	for v := range ls.mod.vars {
+		vs = append(vs, v)
+	}
+	sort.Slice(vs, func(i, j int) bool { return vs[i].Pos() < vs[j].Pos() })
+	for _, v := range vs {
+		v := v
+		ev, ok := entrySt.vars[v]
+		if !ok || ex.boxed[v] {
+			continue
+		}
+		if _, ok := st.vars[v]; !ok {
+			continue
+		}
+		switch u := v.Type().Underlying().(type) {
+		case *types.Pointer, *types.Map:
+			_ = u
+			needEntry = append(needEntry, autoCand{name: "nonnil:" + v.Name(), at: func(s *State) *Term {
+				x, ok := s.vars[v]
+				if !ok {
+					return True
+				}
+				return Neq(x.C[0], IntLit(0))
+			}})
+		case *types.Slice:
+			e0 := ev.C[2]
+			out = append(out, autoCand{name: "lengrows:" + v.Name(), at: func(s *State) *Term {
+				x, ok := s.vars[v]
+				if !ok {
+					return True
+				}
+				return Ge(x.C[2], e0)
+			}})
+		case *types.Basic:
+			if u.Info()&types.IsInteger != 0 {
+				e0 := ev.C[0]
+				out = append(out, autoCand{name: "grows:" + v.Name(), at: func(s *State) *Term {
+					x, ok := s.vars[v]
+					if !ok {
+						return True
+					}
+					return Ge(x.C[0], e0)
+				}})
+				out = append(out, autoCand{name: "shrinks:" + v.Name(), at: func(s *State) *Term {
+					x, ok := s.vars[v]
+					if !ok {
+						return True
+					}
+					return Le(x.C[0], e0)
+				}})
+			}
+		}
+	}
+	// index variables: X[v] in the loop with v an integer variable modified by the loop
+	seen := map[string]bool{}
+	var scan func(n ast.Node)
+	scan = func(n ast.Node) {
+		if n == nil || isNilNode(n) {
+			return
+		}
+		ast.Inspect(n, func(nd ast.Node) bool {
+			ix, ok := nd.(*ast.IndexExpr)
+			if !ok {
+				return true
+			}
+			id, ok := unparen(ix.Index).(*ast.Ident)
+			if !ok {
+				return true
+			}
+			v, ok := ex.P.Info.Uses[id].(*types.Var)
+			if !ok || !ls.mod.vars[v] || !isInteger(v.Type()) || ex.boxed[v] {
+				return true
+			}
+			xt := ex.typeOf(ix.X)
+			if _, isSl := xt.Underlying().(*types.Slice); !isSl && !isString(xt) {
+				return true
+			}
+			key := ex.exprStr(ix.X) + "[" + id.Name + "]"
+			if seen[key] {
+				return true
+			}
+			seen[key] = true
+			X := ix.X
+			lenOf := func(s *State) (*Term, *Term, bool) {
+				iv, ok := s.vars[v]
+				if !ok {
+					return nil, nil, false
+				}
+				nObl := len(ex.Obls)
+				cnt := map[string]int{}
+				for k, c := range ex.oblCount {
+					cnt[k] = c
+				}
+				tmp := s.clone()
+				var ln *Term
+				good := func() (g bool) {
+					defer func() {
+						ex.Obls = ex.Obls[:nObl]
+						ex.oblCount = cnt
+						if r := recover(); r != nil {
+							if _, isU := r.(undecided); isU {
+								g = false
+								return
+							}
+							panic(r)
+						}
+					}()
+					xv := ex.eval(tmp, X)
+					if isString(xv.T) {
+						ln = StrLen(xv.term())
+					} else {
+						ln = xv.C[2]
+					}
+					return true
+				}()
+				if !good {
+					return nil, nil, false
+				}
+				return iv.C[0], ln, true
+			}
+			needEntry = append(needEntry, autoCand{name: "idx-lt:" + key, at: func(s *State) *Term {
+				i, ln, ok := lenOf(s)
+				if !ok {
+					return False
+				}
+				return Lt(i, ln)
+			}})
+			needEntry = append(needEntry, autoCand{name: "idx-le:" + key, at: func(s *State) *Term {
+				i, ln, ok := lenOf(s)
+				if !ok {
+					return False
+				}
+				return Le(i, ln)
+			}})
+			needEntry = append(needEntry, autoCand{name: "idx-ge0:" + id.Name, at: func(s *State) *Term {
+				iv, ok := s.vars[v]
+				if !ok {
+					return False
+				}
+				return Le(IntLit(0), iv.C[0])
+			}})
+			return true
+		})
+	}
+	switch l := ls.stmt.(type) {
+	case *ast.ForStmt:
+		scan(l.Body)
+		if l.Cond != nil {
+			scan(l.Cond)
+		}
+	case *ast.RangeStmt:
+		scan(l.Body)
+	}
+	// entry checks
+	if len(needEntry) > 0 {
+		var goals []*Obligation
+		for i, c := range needEntry {
+			goals = append(goals, &Obligation{Name: fmt.Sprintf("%s#auto-entry#%d", ex.Fn.Key, i), Kind: "auto-inv", Func: ex.Fn.Key,
+				Facts: append([]*Term(nil), entrySt.facts...), Goal: c.at(entrySt), Auto: true})
+		}
+		ex.quickSolve(goals)
+		for i, g := range goals {
+			if g.Status == "proved" {
+				out = append(out, needEntry[i])
+			}
+		}
+	}
+	return out
 }
